@@ -9,7 +9,10 @@ import (
 	_ "verif/mc/props/c05"
 	_ "verif/mc/props/c06"
 	_ "verif/mc/props/c07"
+	_ "verif/mc/props/c08"
+	_ "verif/mc/props/c09"
 	_ "verif/mc/props/c10"
+	_ "verif/mc/props/c11"
 	_ "verif/mc/props/c12"
 	_ "verif/mc/props/c13"
 	_ "verif/mc/props/c14"
